@@ -44,11 +44,11 @@ def functions():
 def bounds(tier):
     q = tier == "quick"
     return {
-        "script_events": 6 if q else 8,
-        "sends": 3 if q else 4,
+        "script_events": 6 if q else 7,
+        "sends": 3,
         "partitions_of_t": 2,
         "max_req_attempts": "SymInt in [1,4]",
-        "fault_budget": 3 if q else 4,
+        "fault_budget": 3,
         "retry_interval": [0.25, 1.0],
         "batching": ["off", "every_n=2", "every_t=5s with retry interval 6s (1 and 2 partitions)"],
         "outside": "more than 2 partitions / 4 sends; the network below the client contract",
@@ -74,9 +74,9 @@ def jobs(tier):
                         "batch_t": 0,
                         "codec": CODEC_NONE,
                         "api": 0,
-                        "K": 6 if q else 8,
-                        "sends": 3 if q else 4,
-                        "faults": 3 if q else 4,
+                        "K": 6 if q else 7,
+                        "sends": 3,
+                        "faults": 3,
                         "max_attempts": 4,
                         "interval": interval,
                         "two_topics": False,
@@ -89,7 +89,7 @@ def jobs(tier):
     # the client may answer synchronously (an already-fired Deferred), so the producer's handlers re-enter
     for batch in (False, True):
         out.append({"acks": 1, "batch": batch, "batch_n": 2, "batch_b": 0, "batch_t": 0, "codec": CODEC_NONE, "api": 0,
-                    "K": 5 if q else 7, "sends": 2 if q else 3, "faults": 3 if q else 4, "max_attempts": 3, "interval": 0.25,
+                    "K": 5 if q else 6, "sends": 2 if q else 3, "faults": 3, "max_attempts": 3, "interval": 0.25,
                     "two_topics": False, "cancel": False, "stop": False, "variants": 1, "errcodes": 1, "sync": True})
     # time-triggered batching: ticks of the batch timer interleave with unresolved batches and their retry timers
     for parts in (1, 2):
@@ -102,7 +102,7 @@ def jobs(tier):
                 "batch_t": 5,
                 "codec": CODEC_NONE,
                 "api": 0,
-                "K": 7 if q else 9,
+                "K": 7 if q else 8,
                 "sends": 3,
                 "faults": 2,
                 "max_attempts": 4,
